@@ -18,7 +18,8 @@ pub struct Case {
     pub csv: String,
     pub undirected: bool,
     pub all: bool,
-    /// 0: file in, stdout out; 1: stdin in, stdout out; 2: file in, file out
+    /// 0: file in, stdout out; 1: stdin in, stdout out; 2: file in, file out; 3: named pipe as INPUT;
+    /// 4: /dev/stdin as INPUT; 5: stdin in small pieces (see common::plan_input)
     pub io: u8,
 }
 
@@ -37,9 +38,8 @@ pub fn check_case(ctx: &Ctx, st: &mut Stats, c: &Case, tag: &str) {
     st.evals += 1;
     let dir = ctx.fresh_dir(&format!("c16-{}", tag));
     let _ = std::fs::create_dir_all(&dir);
-    let input = dir.join("graph.csv");
-    let output = dir.join("out.txt");
-    let _ = std::fs::write(&input, c.csv.as_bytes());
+    let output = dir.join(super::common::hostile_file_name(c.csv.len(), "out.txt"));
+    let plan = super::common::plan_input(c.io, &dir, "graph.csv", c.csv.as_bytes());
     let mut args: Vec<String> = Vec::new();
     if c.undirected {
         args.push("-u".into());
@@ -47,16 +47,15 @@ pub fn check_case(ctx: &Ctx, st: &mut Stats, c: &Case, tag: &str) {
     if c.all {
         args.push("-a".into());
     }
-    let stdin = if c.io == 1 { Some(c.csv.as_bytes().to_vec()) } else { None };
-    if c.io != 1 {
-        args.push(input.display().to_string());
+    if let Some(p) = &plan.path_arg {
+        args.push(p.clone());
     }
     if c.io == 2 {
         // the output file already exists and is longer than what will be written
         let _ = std::fs::write(&output, super::common::stale_content());
         args.push(output.display().to_string());
     }
-    let out = cli::run(&ctx.bin("max_clique_gen"), &args, stdin.as_deref(), Some(&dir), None, Duration::from_secs(60));
+    let out = cli::run_fed(&ctx.bin("max_clique_gen"), &args, plan.stdin.as_deref(), &plan.feed, Some(&dir), None, Duration::from_secs(60));
     let text = if c.io == 2 { std::fs::read_to_string(&output).unwrap_or_default() } else { out.stdout_str() };
     let _ = std::fs::remove_dir_all(&dir);
     let case = || c.to_json();
@@ -229,7 +228,7 @@ fn job(ctx: &Ctx, job: usize, jobs: usize, thorough: bool) -> Stats {
                 }
                 let names = &NAME_SETS[k % NAME_SETS.len()];
                 let csv = csv_of(g, names, Some(&mut rng));
-                let c = Case { csv, undirected: u, all: a, io: (k % 3) as u8 };
+                let c = Case { csv, undirected: u, all: a, io: (k % 6) as u8 };
                 check_case(ctx, &mut st, &c, &format!("{}-{}", job, k));
                 st.bump("exhaustive_cases");
             }
@@ -252,7 +251,7 @@ fn job(ctx: &Ctx, job: usize, jobs: usize, thorough: bool) -> Stats {
         }
         let names = &NAME_SETS[rng.usize(NAME_SETS.len())];
         let csv = csv_of(&edges, names, Some(&mut rng));
-        let c = Case { csv, undirected: rng.chance(1, 2), all: rng.chance(1, 2), io: rng.below(3) as u8 };
+        let c = Case { csv, undirected: rng.chance(1, 2), all: rng.chance(1, 2), io: rng.below(super::common::INPUT_MODES) as u8 };
         check_case(ctx, &mut st, &c, &format!("{}-r{}", job, i));
         st.bump("random_cases");
     }
@@ -271,7 +270,7 @@ pub fn run(ctx: &Ctx) -> (Stats, Spec) {
         for u in [false, true] {
             for a in [false, true] {
                 k += 1;
-                check_case(ctx, &mut st, &Case { csv: csv.into(), undirected: u, all: a, io: (k % 3) as u8 }, &format!("fixed-{}", k));
+                check_case(ctx, &mut st, &Case { csv: csv.into(), undirected: u, all: a, io: (k % 6) as u8 }, &format!("fixed-{}", k));
             }
         }
     }
@@ -283,7 +282,7 @@ pub fn run(ctx: &Ctx) -> (Stats, Spec) {
         let many: String = "p,q\nq,p\n".repeat(1_500) + "q,r\nr,q\nr,s\n";
         for (i, csv) in [tri, many].iter().enumerate() {
             for (u, a) in [(false, false), (true, false), (false, true)] {
-                check_case(ctx, &mut st, &Case { csv: csv.clone(), undirected: u, all: a, io: (i % 2) as u8 }, &format!("large-{}-{}{}", i, u as u8, a as u8));
+                check_case(ctx, &mut st, &Case { csv: csv.clone(), undirected: u, all: a, io: ((i * 3 + u as usize * 2 + a as usize) % 6) as u8 }, &format!("large-{}-{}{}", i, u as u8, a as u8));
                 st.bump("large_inputs");
             }
         }
@@ -300,6 +299,9 @@ pub fn run(ctx: &Ctx) -> (Stats, Spec) {
             ("flags_u1_a1".into(), 50, "-u -a hardly exercised".into()),
             ("io_1".into(), 20, "stdin input hardly exercised".into()),
             ("io_2".into(), 20, "file output hardly exercised".into()),
+            ("io_3".into(), 20, "named-pipe input hardly exercised".into()),
+            ("io_4".into(), 20, "/dev/stdin input hardly exercised".into()),
+            ("io_5".into(), 20, "piecewise stdin hardly exercised".into()),
             ("distinct_nontrivial".into(), 100, "too few non-trivial graphs".into()),
         ],
     };
